@@ -4,7 +4,8 @@
    regex-based split_lines of the shared model (`\r?\n` through the generic matcher) is checked by the correspondence on
    every run, not proved.  parse_lines = parse_script after line splitting; llines = the logical lines. *)
 From BS Require Import Model.Base Model.Regex Model.Num Model.ExprParser Model.Script Model.ScriptX Model.Lower
-  Gen.Unicode Proofs.ScriptFacts Proofs.C06 Proofs.C10 Proofs.C10ws Proofs.C10wsExpr Proofs.C10wsIndent.
+  Gen.Unicode Proofs.ScriptFacts Proofs.C06 Proofs.C10 Proofs.C10ws Proofs.C10wsExpr Proofs.C10wsIndent
+  Proofs.ExprFuel Proofs.C10wsFull Proofs.RegexShiftG Proofs.C10wsIndent2 Proofs.C10wsReturn.
 
 (* ---- LF versus CRLF: both texts have the same lines ---- *)
 Theorem C10_crlf : forall lines, lines <> [] -> Forall no_lf lines -> Forall (fun l => ends_cr l = false) lines ->
@@ -86,13 +87,25 @@ Print Assumptions C10_ws_else_gap.
 (* ---- leading whitespace in front of an expression: parse_expression gives the same tree; an error keeps its text and
    its column moves with the text (c + |ws|), or stays 1 when the very first token is rejected (parser.py then reports the
    whole text as the remainder).  eres_ws d a b relates a = parse_expression text and b = parse_expression (ws ++ text).
-   The premise `<> EFuel` is about the MODEL's fuel (2*|text|+4): that it always suffices is not proved here.
+   No fuel premise any more: the MODEL's fuel (2*|text|+4) always suffices (C10_expression_fuel_suffices, Proofs/ExprFuel.v:
+   parse_unary needs 2n+1, parse_binary 2n+2 / 2n+1, parse_args 2n+3 / 2n+1 levels of recursion on a text of n characters,
+   because `(`, a unary or binary operator and `,` read >= 1 character and `name(` >= 2 — computed on the regenerated regexes).
    Proved through the regenerated token regexes `^\s*B` (Proofs/RegexShift.v: the engine's answer on ws ++ text is its
    answer on text shifted by |ws|).  PARTIAL with respect to the clause: only a LEADING run, not the gaps between tokens. ---- *)
-Theorem C10_ws_expression_leading_partial : forall ws text, white ws -> parse_expression text <> EFuel ->
+Theorem C10_expression_fuel_suffices : forall text, parse_expression text <> EFuel.
+Proof. exact parse_expression_no_fuel. Qed.
+Print Assumptions C10_expression_fuel_suffices.
+
+Theorem C10_ws_expression_leading_partial : forall ws text, white ws ->
   eres_ws (length ws) (parse_expression text) (parse_expression (ws ++ text)).
-Proof. exact parse_expression_ws. Qed.
+Proof. exact parse_expression_ws_full. Qed.
 Print Assumptions C10_ws_expression_leading_partial.
+
+(* the error case spelled out *)
+Theorem C10_ws_expression_leading_err : forall ws text msg c, white ws -> parse_expression text = EErr msg c ->
+  parse_expression (ws ++ text) = EErr msg (c + length ws) \/ (c = 1 /\ parse_expression (ws ++ text) = EErr msg 1).
+Proof. exact parse_expression_ws_err. Qed.
+Print Assumptions C10_ws_expression_leading_err.
 
 Theorem C10_ws_expression_leading_ok : forall ws text e, white ws ->
   parse_expression text = EOk e -> parse_expression (ws ++ text) = EOk e.
@@ -111,15 +124,49 @@ Theorem C10_ws_indentation_partial : forall n ws line k, white ws -> indent_kind
 Proof. exact classify_indent. Qed.
 Print Assumptions C10_ws_indentation_partial.
 
+(* ---- INDENTATION of EVERY statement line, also function-begin / jump / jumpif / return (Proofs/C10wsIndent2.v).  Their
+   regexes open a capture group at the start of the line with the `\s*` inside it (`^(?P<jump>\s*(?:jump|jumpif..))`,
+   `^(?P<return>\s*return..)`, `^(?P<async>\s*async)?\s*function`).  Proved operationally (Proofs/RegexShiftG.v): the ENGINE's
+   answer on ws ++ line is its answer on line with every position moved by |ws| except the start of that outer group, which
+   stays 0 — so all other captured texts (name, expr, args, ...) and "which groups matched" are unchanged; the outer group's
+   own text only feeds the error column.  Only restriction left: an elif whose condition does NOT parse (its kind carries
+   the parser error with the column).  PARTIAL w.r.t. the clause only in that it is about LEADING whitespace. ---- *)
+Theorem C10_ws_indentation : forall n ws line k, white ws -> indent_kind_all k = true ->
+  Lower.classify n line = ROk k -> Lower.classify n (ws ++ line) = ROk k.
+Proof. exact classify_indent_all. Qed.
+Print Assumptions C10_ws_indentation.
+
+(* the engine-level statements behind it *)
+Theorem C10_ws_indent_jump : forall ws line, white ws ->
+  rxm Gen.Regexes.R_SCRIPT_JUMP (ws ++ line) = shiftrg (length ws) 1 (rxm Gen.Regexes.R_SCRIPT_JUMP line).
+Proof. exact jump_shift. Qed.
+Theorem C10_ws_indent_return : forall ws line, white ws ->
+  rxm Gen.Regexes.R_SCRIPT_RETURN (ws ++ line) = shiftrg (length ws) 1 (rxm Gen.Regexes.R_SCRIPT_RETURN line).
+Proof. exact return_shift. Qed.
+Theorem C10_ws_indent_function_begin : forall ws line, white ws ->
+  rxm Gen.Regexes.R_SCRIPT_FUNCTION_BEGIN (ws ++ line) = shiftrg (length ws) 1 (rxm Gen.Regexes.R_SCRIPT_FUNCTION_BEGIN line).
+Proof. exact fn_begin_shift. Qed.
+Print Assumptions C10_ws_indent_function_begin.
+
+(* ---- a bare `return` with ANY indentation and ANY trailing whitespace is the statement `return` (the F19 regression as a
+   theorem about the REGENERATED R_SCRIPT_RETURN: in every derivation the optional expr group is absent, because its first
+   character `\S` would have to be one of the trailing whitespace characters) ---- *)
+Theorem C10_ws_return_bare : forall n ws1 ws2, white ws1 -> white ws2 ->
+  Lower.classify n (ws1 ++ U "return" ++ ws2) = ROk (KReturn None).
+Proof. exact classify_return_bare. Qed.
+Print Assumptions C10_ws_return_bare.
+
 (* C10_ws_tokens_partial — the FULL clause "breaking a line at any point where a space is allowed / changing indentation or
    trailing whitespace yields the same statement" needs whitespace-insensitivity of EVERY statement regex and of the
-   expression lexer at EVERY gap.  PROVED: the keyword-only statements with any indentation and trailing whitespace
-   (C10_ws_keyword_lines, C10_ws_else_gap); a leading whitespace run in front of an expression
-   (C10_ws_expression_leading_partial / _ok); indentation of every statement kind except function-begin, jump/jumpif
-   and return (C10_ws_indentation_partial).
-   NOT proved (oracle only): indentation of function-begin / jump / jumpif / return lines; trailing whitespace and inner
-   gaps of the statements that carry an expression or a name (assignment, function, if/elif/while/for, label, jump/jumpif,
-   return, include); whitespace between the tokens of an expression; these are checked metamorphically by the direct oracle (harness/c10_oracle.py) at every inter-token gap.
+   expression lexer at EVERY gap.  PROVED: the keyword-only statements and the bare `return` with any indentation and trailing whitespace
+   (C10_ws_keyword_lines, C10_ws_else_gap, C10_ws_return_bare); a leading whitespace run in front of an expression, no fuel premise
+   (C10_ws_expression_leading_partial / _err / _ok, C10_expression_fuel_suffices); indentation of EVERY statement kind
+   (C10_ws_indentation; C10_ws_indentation_partial is the earlier version without function-begin / jump / jumpif / return).
+   NOT proved (oracle only): trailing whitespace and inner gaps of the statements that carry an expression or a name
+   (assignment, function, if/elif/while/for, label, jump/jumpif, return, include) — with a trailing run the greedy `.+` of an
+   expression group captures the run too, so this needs whitespace-insensitivity of the expression lexer at the END of the
+   text plus a per-regex uniqueness argument; whitespace between the tokens of an expression.  These are checked
+   metamorphically by the direct oracle (harness/c10_oracle.py) at every inter-token gap.
    C10_stateless: parse_script / parse_expression of the model are Gallina functions, so determinism and absence
    of state between calls are definitional; on the implementation they are tested by interleaved repeated calls. *)
 
@@ -167,6 +214,14 @@ Proof.
   split; [eexists; split; vm_compute; reflexivity|].
   repeat split; vm_compute; reflexivity.
 Qed.
+
+Example C10_ex_ws_indentation_all :
+  (exists k, indent_kind_all k = true /\ Lower.classify 3 (U "jumpif (x > 1) top") = ROk k /\ Lower.classify 3 (U " \000009 jumpif (x > 1) top") = ROk k) /\
+  (exists k, indent_kind_all k = true /\ Lower.classify 3 (U "jump top") = ROk k /\ Lower.classify 3 (U "    jump top") = ROk k) /\
+  (exists k, indent_kind_all k = true /\ Lower.classify 3 (U "return x + 1") = ROk k /\ Lower.classify 3 (U "  return x + 1") = ROk k) /\
+  (exists k, indent_kind_all k = true /\ Lower.classify 3 (U "async function f(a, b...):") = ROk k /\ Lower.classify 3 (U "   async function f(a, b...):") = ROk k) /\
+  (exists k, indent_kind_all k = true /\ Lower.classify 3 (U "function g():") = ROk k /\ Lower.classify 3 (U "\000009function g():") = ROk k).
+Proof. repeat split; (eexists; split; [|split; vm_compute; reflexivity]; reflexivity). Qed.
 
 Example C10_ex_ws_indentation :
   (exists k, indent_kind k = true /\ Lower.classify 3 (U "x = fn(1) + 2") = ROk k /\ Lower.classify 3 (U " \000009  x = fn(1) + 2") = ROk k) /\
